@@ -1370,7 +1370,7 @@ def rule_remove_by_identity(em, rep, rid, sm=None):
                     # ``rest = [c for c in cur if c is not clause]; if len(rest) != len(cur):`` - shorter exactly when present
                     for t in dom[p_]:
                         e = t.ast if t.kind == 'test' else None
-                        if isinstance(e, ast.Compare) and len(e.ops) == 1 and isinstance(e.ops[0], (ast.NotEq, ast.Lt, ast.Gt)):
+                        if isinstance(e, ast.Compare) and len(e.ops) == 1 and isinstance(e.ops[0], (ast.NotEq, ast.Lt, ast.Gt, ast.Eq, ast.LtE, ast.GtE)):
                             sides = [e.left, e.comparators[0]]
                             if all(isinstance(x, ast.Call) and is_name(x.func, 'len') and len(x.args) == 1 and is_name(x.args[0]) for x in sides):
                                 a_, b_ = sides[0].args[0].id, sides[1].args[0].id
